@@ -35,14 +35,41 @@ def cases(fn: ast.FunctionDef, rename: Optional[Dict[str, str]] = None, limit: i
             if isinstance(st, ast.Return):
                 v = st.value
 
+                def _replace(n, target, by):
+                    if n is target:
+                        return by
+                    if isinstance(n, ast.AST):
+                        new_ = n.__class__()
+                        for f__ in n._fields:
+                            if hasattr(n, f__):
+                                setattr(new_, f__, _replace(getattr(n, f__), target, by))
+                        for a__ in ("lineno", "col_offset", "end_lineno", "end_col_offset"):
+                            if hasattr(n, a__):
+                                setattr(new_, a__, getattr(n, a__))
+                        return new_
+                    if isinstance(n, list):
+                        return [_replace(x, target, by) for x in n]
+                    return n
+
+                def _ren(e):
+                    return norm.subst(e, {k: ast.Name(v_, ast.Load()) for k, v_ in rename.items()}) if rename else e
+
                 def emit(e, cs):
-                    # a conditional expression is a case split like any other
-                    if isinstance(e, ast.IfExp):
-                        f_ = norm.nnf(sub(e.test, env))
-                        emit(e.body, cs | frozenset(norm.atoms_true(f_)))
-                        emit(e.orelse, cs | frozenset(norm.atoms_true(norm.neg(f_))))
-                    else:
-                        out.append((cs, sub(e, env) if e is not None else None))
+                    # a conditional expression is a case split like any other — also when it sits inside the returned expression
+                    # (`b / (c if c < 3 else 3)`; the laws are pure, so lifting the test out changes nothing)
+                    if e is None:
+                        out.append((cs, None))
+                        return
+                    if len(out) > limit:
+                        raise Unsupported("too many paths")
+                    inner = next((x for x in ast.walk(e) if isinstance(x, ast.IfExp)), None)
+                    if inner is None:
+                        out.append((cs, _ren(e)))
+                        return
+                    f_ = norm.nnf(_ren(inner.test))
+                    emit(_replace(e, inner, inner.body), cs | frozenset(norm.atoms_true(f_)))
+                    emit(_replace(e, inner, inner.orelse), cs | frozenset(norm.atoms_true(norm.neg(f_))))
+                v = norm.subst(v, env) if v is not None else None
                 emit(v, conds)
                 return
             if isinstance(st, ast.Raise):
